@@ -49,6 +49,9 @@ def run(ctx):
     for bo in range(1, 8):                                                      # every bit-length residue, one and several leaf blocks
         for n, L in ((2, 64), (700, 64), (700, 0), (2100, 1)):
             ev.append(md6_event(256, b'', L, 2, rb(n), 8 * n - bo)); ctx.mark(('bits', bo, n, L))
+    for n, cut, L in ((700, 50, 64), (700, 50, 0), (1500, 3, 1), (40, 39, 64)):            # explicit byte-aligned bit length, data longer than that (bytes after the cut are ignored)
+        ev.append(md6_event(256, b'', L, 8, rb(n), 8 * (n - cut))); ctx.mark(('bytealigned-bitlen', n, cut, L))
+    ev.append(md6_event(64, b'', 64, 170, b'abc', None)); ev.append(md6_event(512, b'k', 0, 200, rb(100), None))      # round counts beyond every default
     ev.append(md6_event(256, b'', 64, 1, b'ab', 17))                            # bit length beyond the data
     for d, key, L, M in ((256, b'', 64, b'abc'), (224, b'', 64, b''), (512, b'key', 64, b'abc' * 50), (256, b'', 0, b'abc')):
         ev.append(md6_event(d, key, L, None, M, None))                           # default round counts
